@@ -763,6 +763,11 @@ func GenExif(rt *rapid.T, o Options) *ExifFile {
 	for len(trailing) < 64 {
 		trailing = append(trailing, 0xEE)
 	}
+	if Chance(rt, "slotJunk?", 0.3) {
+		SlotJunk = rapid.SampledFrom([]byte{0xFF, 0x01, 0x20, 0x80, 0x7F, 0xC8}).Draw(rt, "slotJunk")
+		f.Classes = append(f.Classes, "slot-junk")
+	}
+	defer func() { SlotJunk = 0 }()
 	f.Enc = Encode(ifd0, first, pick, pad, trailing)
 	if o.BigPending {
 		// Fill with foreign out-of-line tags until the reader's pending list peaks at
